@@ -108,6 +108,32 @@ static void block(uint32_t first) {
                          vf::show(st.First(), st.Length()).c_str(), vf::show(e2.data(), e2.size()).c_str());
             }
         }
+        // (a2) the same encoder writing into a String (the other stream-like destination the templates accept), and the
+        //      escape decoded by JSONUtils::UnEscape into a String
+        {
+            String<Char_T> sd;
+            sd += Char_T('p');
+            Unicode::ToUTF<Char_T>(cp, sd);
+            std::vector<Char_T> e2;
+            e2.push_back(Char_T('p'));
+            e2.insert(e2.end(), exp.begin(), exp.end());
+            if (!same(sd.First(), sd.Length(), e2)) {
+                vf::fail((std::string("c20:") + uname<Char_T>() + ":direct-into-string").c_str(), "U+%04X got=%s expected=%s", cp,
+                         vf::show(sd.First(), sd.Length()).c_str(), vf::show(e2.data(), e2.size()).c_str());
+            }
+            std::string esc;
+            put_escape(esc, cp, (cp & 2) != 0);
+            esc += "\"";
+            std::vector<Char_T> w(esc.begin(), esc.end());
+            String<Char_T>      out;
+            SizeT               used = JSONUtils::UnEscape(w.data(), SizeT(w.size()), out);
+            // (UnEscape leaves the destination empty when nothing had to be decoded; every \u escape has to be)
+            if (used != SizeT(w.size()) || !same(out.First(), out.Length(), exp)) {
+                vf::fail((std::string("c20:") + uname<Char_T>() + ":unescape-into-string").c_str(), "U+%04X used=%u got=%s expected=%s", cp, unsigned(used),
+                         vf::show(out.First(), out.Length()).c_str(), vf::show(exp.data(), exp.size()).c_str());
+            }
+            vf::count("direct_into_string", 2);
+        }
         // (b) escape alone, upper and lower hex
         for (int upper = 0; upper < 2; ++upper) {
             std::string d = "[\"";
